@@ -32,6 +32,7 @@ type Engine struct {
 	maxPaths   int
 	deadline   time.Time
 	traceCalls bool
+	traceInstr bool
 	solverKind string
 	solverTO   int
 	nworkers   int
